@@ -24,6 +24,38 @@ tests, i.e. everything that is data flow over run-time values (DESIGN.md section
 MACRO_RULES = ("C18.W5.", "C18.W6.", "C18.W7.", "C18.W8.", "C18.W10.", "C18.W2.")
 
 
+def check_exact_size_hints(ctx, prog):
+    """L1: the loop object takes the length of the sequence from the iterator's size hint and trusts it only when lower and
+    upper bound agree (`LoopState::new`).  An engine iterator that *knows* how many items are left - its upper bound is
+    `Some(stored count)` - and reports 0 as the lower bound makes loop.length / revindex / revindex0 undefined and
+    loop.last never true for that kind of sequence: they no longer describe the sequence that is iterated."""
+    from .. import flow
+    n = 0
+    for k, f in sorted(prog.fns.items()):
+        if f.crate not in ("minijinja", "minijinja_contrib") or not k.endswith("::size_hint") or "Iterator" not in k:
+            continue
+        for o in flow.origins(f, 0):
+            if not (o.kind == "agg" and o.rv.get("agg") == "tuple" and len(o.rv["ops"]) == 2):
+                continue
+            low, up = o.rv["ops"]
+            ups = flow.origins(f, up) if "c" not in up else []
+            stored = []
+            for u in ups:
+                if u.kind == "agg" and u.rv.get("variant") == "Some" and u.rv["ops"] and "c" not in u.rv["ops"][0]:
+                    stored += [q for q in flow.origins(f, u.rv["ops"][0]) if q.kind == "arg" and q.proj]
+            if not stored:
+                continue
+            n += 1
+            lows = flow.origins(f, low) if "c" not in low else []
+            exact = bool(lows) and {q.key() for q in lows} == {q.key() for q in stored}
+            ctx.ob("C03.L1.known-length-is-reported-as-exact", "%s|%s" % (k.split(" as ")[0].lstrip("<"), ".".join(stored[0].proj)), exact,
+                   "the upper bound of this size hint is the stored number of remaining items, the lower bound is %s: the loop "
+                   "object only trusts a hint whose bounds agree, so loop.length / revindex / last are undefined for this "
+                   "sequence" % ("the same number" if exact else ("the constant %s" % low.get("c", {}).get("int") if "c" in low else "something else")),
+                   f.where(o.bb if o.bb is not None else 0))
+    return n
+
+
 def run(ctx):
     ctx.explain("C03 (partial): the scoping skeleton of the core constructs, decided by the rules of C05 (frames, captures, "
                 "jumps, operand balance, restored state) and the closure-related rules of C18 (what macros enclose) run as "
@@ -37,6 +69,8 @@ def run(ctx):
     # loaded: the transparency rules of the constant folder (C04) as clauses `C03.K:`
     from . import c04 as _c04
     _c04.run(ctx.borrowed("C04", "C03.K:"))
+    n_l = check_exact_size_hints(ctx, ctx.prog)
+    ctx.floor("C03.L1 size hints with a stored upper bound", n_l, 1)
     n_f = sum(1 for o in ctx.obligations if o[0].startswith("C03.F:"))
     n_m = sum(1 for o in ctx.obligations if o[0].startswith("C03.M:"))
     ctx.floor("C03 frame / jump / operand clauses (from C05)", n_f, 100)
